@@ -44,3 +44,9 @@ META["C14"] = {
     "note": "Trusts the 40-line reference parser and independent decoders; scripted readers/writers own all I/O so runs are deterministic.",
     "technique": "property-based testing (rapid) against a reference model + metamorphic partition relation + differential transparency check",
 }
+
+META["C16"] = {
+    "text": "Model-based testing of the trace hand-off: every sequence of the atomic operations Init/Complete/Await/Clear/Cancel up to length 5 (quick) / 6 (thorough) over 2 names and 2 waiters is executed against the real Tracer, linearised by a signalling context, and compared with a sequential slot model; builder event orders are enumerated to length 5/6 and exercised from 2-4 goroutines; the exported round-tripper is run with racing response-error/cancel/body-end/early-close events. Thorough tier builds with the race detector. Exploration with exhaustively enumerated bounded sub-spaces; real goroutine schedules are perturbed, not enumerated.",
+    "note": "Each Tracer operation is atomic under its mutex (the enumeration relies on it); re-Init of a live slot is outside the domain; schedule-dependent failures are reported with the full history but cannot be shrunk.",
+    "technique": "stateful model-based testing: bounded-exhaustive operation sequences + rapid random sequences + concurrency perturbation under -race",
+}
